@@ -491,6 +491,10 @@ def run(chk: Check, tier: str):
         invariant_target_loop(chk, tier, work)
         invariant_target_unsupported(chk, tier)
         invariant_function_loop(chk, tier)
+        # several contracts in one process (MainRun.tla): every cut test is reported, whatever ran before it
+        from harness import mainrun_replay
+
+        mainrun_replay.phase(chk, tier, {"warnings"}, "main-run")
     finally:
         cleanup(work)
     chk.cov["rule"] = (
